@@ -516,8 +516,42 @@ func (c *moCtx) sortedLater(o types.Object) bool {
 		}
 		p := callee.Pkg().Path()
 		if (p == "sort" || p == "slices") && (strings.HasPrefix(callee.Name(), "Sort") || callee.Name() == "Strings" || callee.Name() == "Ints" || callee.Name() == "Slice" || callee.Name() == "SliceStable" || callee.Name() == "Stable" || callee.Name() == "Float64s") {
+			total := true
+			switch callee.Name() {
+			case "Slice", "SliceStable", "SortFunc", "SortStableFunc":
+				// a comparison function orders the slice totally only if it breaks ties: elements that
+				// compare equal keep the order in which the map loop appended them
+				total = false
+				for _, a := range call.Args {
+					fl, ok := a.(*ast.FuncLit)
+					if !ok {
+						continue
+					}
+					cmps, whole := 0, false
+					ast.Inspect(fl.Body, func(m ast.Node) bool {
+						be, ok := m.(*ast.BinaryExpr)
+						if !ok {
+							return true
+						}
+						switch be.Op {
+						case token.LSS, token.GTR, token.LEQ, token.GEQ, token.EQL, token.NEQ:
+							cmps++
+							// x[i] < x[j] on the elements themselves (a slice of basic values)
+							_, xi := ast.Unparen(be.X).(*ast.IndexExpr)
+							_, yi := ast.Unparen(be.Y).(*ast.IndexExpr)
+							if xi && yi {
+								whole = true
+							}
+						}
+						return true
+					})
+					if whole || cmps >= 2 {
+						total = true
+					}
+				}
+			}
 			for _, a := range call.Args {
-				if mentions(c.info, a, o) {
+				if mentions(c.info, a, o) && total {
 					found = true
 				}
 			}
@@ -819,7 +853,7 @@ func (c *moCtx) assign(as *ast.AssignStmt, l ast.Expr, rhs ast.Expr) {
 						return
 					}
 				}
-				c.flag("append to "+types.ExprString(l)+" without a later sort", as)
+				c.flag("append to "+types.ExprString(l)+" without a later sort that orders it totally (a sort.Slice whose comparison leaves ties keeps the append order among equal elements)", as)
 				return
 			}
 		}
